@@ -102,7 +102,7 @@ def run_profile(ctx, profile, n_t, n_p, maxcoef, modes=("shipped",), line_checke
 def run(ctx):
     ctx.audit()
     if ctx.tier == "quick": st, dist = run_profile(ctx, "C01", 220, 25, 3000)
-    else: st, dist = run_profile(ctx, "C01", 3000, 60, 20000, modes=("shipped", "san"))
+    else: st, dist = run_profile(ctx, "C01", 1200, 45, 8000, modes=("shipped", "san"))
     ctx.coverage["evaluations"] = st["values"] + st["lookups"]
     ctx.coverage["distinct_nontrivial"] = len(st["distinct"])
     ctx.coverage["rule"] = "harness/eval_harness.cpp profile C01: random tables (1..9 dims, orders 0..5, minimum and longer knot vectors, uniform/irregular/repeated/wide-range knots, float coefficients incl. 0, -0, denormal, huge) and points (knots, float neighbours, margins, support end, interior); non-trivial = lookup succeeded, value finite and inside the rounding envelope; distinct = distinct (table, point, precision) lines"
